@@ -48,6 +48,22 @@ var Metas = map[string]*Meta{
 		Runs:       map[string]int{"quick": 6000, "thorough": 400000},
 		Run:        RunC15,
 	},
+	"C16": {
+		Level: "exploration",
+		Rule: "A run builds one index from generated (starts, ends) -- 0-12 intervals incl. start==end, start>end, duplicates, touching, nested, negative and math.MinInt/MaxInt coordinates -- shared by 1-4 simulated callers with up to 8 operations each (At at breakpoints, breakpoint+-1, below min, above max, random; scribbling over a previously returned slice in three modes; re-queries), once interleaved at whole-operation granularity on the real package and twice at statement granularity on the instrumented scratch copy (real goroutines, exactly one runnable, yield before every statement; uniform / sticky / PCT-style choice from the run PRNG); every At answer is compared with a brute-force scan. 3% of cases hand NewIndex unequal lengths and expect the panic. " +
+			"The first 17 runs are the fixed exhaustive sweep: all 69 905 sets of <= 4 intervals over coordinates 0..3, positions -1..4, queried, scribbled, queried again. distinct_nontrivial counts distinct (index, callers' programs, executed schedule) triples; evaluations counts cases executed.",
+		Assumptions: []string{
+			"the brute-force scan {x | starts[x] <= i < ends[x]} ascending is the model; nil and empty results are equal",
+			"the API has no mutating operation, so linearizability degenerates to 'every At in every interleaving equals the model'; porcupine would add nothing",
+			"statement granularity: a yield before every statement (not inside expressions); sync primitives are replaced by cooperative shims in the scratch copy; packages using goroutines or channels fall back to operation granularity (reported)",
+			"schedules are sampled, not enumerated; the race detector is deliberately not the oracle (real-thread runs do not replay, benign races change no answer)",
+		},
+		Components: map[string]any{"real": []string{"biostuff regions (operation-granular phase and the sweep: the package itself, built from /repo's working tree)"},
+			"instrumented_copy":     []string{"regions/*.go of the working tree with simrt.Yield inserted before every statement and sync replaced by cooperative shims (statement-granular phase); nothing else changed"},
+			"simulated_environment": []string{"callers sharing the index", "the scheduler (who runs next at every yield)", "callers scribbling over returned slices"}, "stubbed": []string{}},
+		Runs: map[string]int{"quick": 12000, "thorough": 1500000},
+		Run:  RunC16,
+	},
 	"C18": {
 		Level: "fault_enumeration",
 		Rule: "A run draws one case: an iterator (Reader of a format under a delivery plan, in 60% with an injected read fault; File on plain / .gz / torn .gz / directory / missing path; PreOrder/PostOrder of a generated tree; trie ForEach with simulator-chosen child order; CanonicalSubsequences) and its environment, records the uninterrupted run x_0..x_{N-1}, then stops at EVERY position j in [0,N) in each of three consumer styles (direct call with a counting yield, for-range + break, iter.Pull + stop). " +
